@@ -85,6 +85,11 @@ func (e *env) genPut(reuseBias int) *putOp {
 		if r.IntN(3) == 0 {
 			o.zone = "zonetwo"
 		}
+		if r.IntN(7) == 0 {
+			// putNamed without a name is an unnamed put, whatever the zone argument says (seeded change C05-5)
+			o.name = ""
+			o.zone = runner.Pick(r, []string{"", "zonetwo", "container"})
+		}
 	}
 	o.signers, o.alpha, o.sdesc = e.alphaSigners(e.pickAlpha(8))
 	return o
